@@ -27,7 +27,7 @@ impl Matcher {
                     max_pos = i as u32;
                     max_score = score;
                     // can't get better than this
-                    if bonus >= self.config.bonus_boundary_white {
+                    if bonus >= self.config.max_bonus() {
                         break;
                     }
                 }
@@ -45,7 +45,7 @@ impl Matcher {
                     max_pos = i as u32;
                     max_score = score;
                     // can't get better than this
-                    if bonus >= self.config.bonus_boundary_white {
+                    if bonus >= self.config.max_bonus() {
                         break;
                     }
                 }
@@ -88,7 +88,7 @@ impl Matcher {
                 max_pos = i;
                 max_score = score;
                 // can't get better than this
-                if bonus >= self.config.bonus_boundary_white {
+                if bonus >= self.config.max_bonus() {
                     break;
                 }
             }
@@ -166,7 +166,7 @@ impl Matcher {
                     max_pos = i;
                     max_score = score;
                     // can't get better than this
-                    if bonus >= self.config.bonus_boundary_white {
+                    if bonus >= self.config.max_bonus() {
                         break;
                     }
                 }
@@ -211,7 +211,7 @@ impl Matcher {
                 max_pos = i as u32;
                 max_score = score;
                 // can't get better than this
-                if bonus >= self.config.bonus_boundary_white {
+                if bonus >= self.config.max_bonus() {
                     break;
                 }
             }
@@ -259,7 +259,7 @@ impl Matcher {
                 max_pos = i;
                 max_score = score;
                 // can't get better than this
-                if bonus >= self.config.bonus_boundary_white {
+                if bonus >= self.config.max_bonus() {
                     break;
                 }
             }
